@@ -116,14 +116,14 @@ Definition native_ok (st : state) (s : site) (p : N) : Prop :=
   gget st (s_idx s) = GPtr p /\ exists o, hget st p = Some o /\ o_kind o = KNat.
 
 (* what the model's cache and patched sites are allowed to contain *)
+Definition uses_cache (s : site) : Prop := forall p, s_form s <> Native p.
+
 Record cache_inv (st : state) : Prop := {
-  inv_mono : forall sid s p, site_at st sid = Some s -> s_live s = true -> s_form s = Mono p ->
-             s_slotted s = true /\ mono_ok st s p;
+  inv_mono : forall sid s p, site_at st sid = Some s -> s_live s = true -> s_form s = Mono p -> mono_ok st s p;
   inv_native : forall sid s p, site_at st sid = Some s -> s_live s = true -> s_form s = Native p ->
                native_ok st s p;
-  inv_plain : forall sid s, site_at st sid = Some s -> s_form s = Plain -> s_slotted s = true }.
-
-Definition uses_cache (s : site) : Prop := forall p, s_form s <> Native p.
+  (* only sites emitted with a slot id hold opcode 77 or 78 *)
+  inv_slotted : forall sid s, site_at st sid = Some s -> uses_cache s -> s_slotted s = true }.
 
 Definition site_rel (a b : site) : Prop :=
   s_live a = s_live b /\ s_slotted a = s_slotted b /\ s_idx a = s_idx b /\
@@ -203,7 +203,7 @@ Proof.
   rewrite <- Hl, <- Hsl, <- Hi, <- (view_rel_resolve st sp (s_idx a) R) in G. cbn [negb] in G.
   destruct (s_form a) as [|p|p] eqn:Fa.
   - (* 77 *)
-    assert (Sa : s_slotted a = true) by (eapply inv_plain; eauto).
+    assert (Sa : s_slotted a = true) by (eapply inv_slotted; eauto; intros q; congruence).
     assert (Hb : s_slot a < MAX_CALL_SITE_SLOTS).
     { rewrite Hslot by (intros q; congruence).
       eapply unique_slots_bound; eauto. apply live_slot_user; congruence. }
@@ -215,7 +215,8 @@ Proof.
       cbn. now rewrite !N.eqb_refl.
     + apply N.eqb_refl.
   - (* 78 *)
-    destruct (inv_mono st I sid a p Ea La Fa) as [Sa Hm].
+    assert (Sa : s_slotted a = true) by (eapply inv_slotted; eauto; intros q; congruence).
+    pose proof (inv_mono st I sid a p Ea La Fa) as Hm.
     assert (Hb : s_slot a < MAX_CALL_SITE_SLOTS).
     { rewrite Hslot by (intros q; congruence).
       eapply unique_slots_bound; eauto. apply live_slot_user; congruence. }
@@ -249,3 +250,534 @@ Proof.
       destruct Hn as (Hg & o & Ho & Hk); [now right|].
       unfold resolve. rewrite Hg, Ho, Hk. cbn. apply N.eqb_refl.
 Qed.
+
+(* ------------------------------------------------------------------ effect of one call on the state *)
+Lemma upd_site_at (sts : list site) (sid j : N) (f : site -> site) :
+  nth_error (upd_nth (N.to_nat sid) f sts) (N.to_nat j) =
+  if j =? sid then option_map f (nth_error sts (N.to_nat sid)) else nth_error sts (N.to_nat j).
+Proof.
+  destruct (j =? sid) eqn:E.
+  - apply N.eqb_eq in E. subst. apply nth_error_upd_same.
+  - apply N.eqb_neq in E. apply nth_error_upd_other. intro H. apply E. symmetry. now apply N2Nat.inj.
+Qed.
+
+Inductive call_effect (st : state) (sid : N) (st' : state) : Prop :=
+| CE_same : st' = st -> call_effect st sid st'
+| CE_native a q o :
+    site_at st sid = Some a -> s_live a = true -> resolve st (s_idx a) = ROk q o -> o_kind o = KNat ->
+    st' = with_site st sid (set_form (Native q)) -> call_effect st sid st'
+| CE_fill a q o :
+    site_at st sid = Some a -> s_live a = true -> uses_cache a ->
+    resolve st (s_idx a) = ROk q o -> o_kind o <> KNat ->
+    st' = fill st sid a q (is_clo o) -> call_effect st sid st'.
+
+Lemma call_effect_of st sid : call_effect st sid (fst (call st sid)).
+Proof.
+  unfold call. fold (site_at st sid).
+  destruct (site_at st sid) as [a|] eqn:Ea; [|now apply CE_same].
+  destruct (s_live a) eqn:La; cbn [negb]; [|now apply CE_same].
+  destruct (s_form a) as [|p|p] eqn:Fa.
+  - unfold op_call_global.
+    destruct (resolve st (s_idx a)) as [q o| | |] eqn:R; try (now apply CE_same).
+    destruct (o_kind o) eqn:K.
+    + destruct (MAX_CALL_SITE_SLOTS <=? s_slot a); [now apply CE_same|].
+      eapply CE_fill; eauto; [intros x; congruence|congruence].
+    + destruct (MAX_CALL_SITE_SLOTS <=? s_slot a); [now apply CE_same|].
+      eapply CE_fill; eauto; [intros x; congruence|congruence].
+    + eapply CE_native; eauto.
+  - assert (M : call_effect st sid (fst (mono_miss st sid a))).
+    { unfold mono_miss.
+      destruct (resolve st (s_idx a)) as [q o| | |] eqn:R; try (now apply CE_same).
+      destruct (o_kind o) eqn:K.
+      + destruct (MAX_CALL_SITE_SLOTS <=? s_slot a); [now apply CE_same|].
+        eapply CE_fill; eauto; [intros x; congruence|congruence].
+      + destruct (MAX_CALL_SITE_SLOTS <=? s_slot a); [now apply CE_same|].
+        eapply CE_fill; eauto; [intros x; congruence|congruence].
+      + now apply CE_same. }
+    unfold op_call_global_mono.
+    destruct (negb (p =? 0) && (negb MONO_FAST_PATH_VALIDATES || gval_is (gget st (s_idx a)) p)); [|exact M].
+    destruct (cache_entry (cache st) (s_slot a)) as [e|]; [|exact M].
+    destruct (e_clo e).
+    + destruct (hget st p) as [o|]; [|exact M]. destruct (is_clo o); [now apply CE_same|exact M].
+    + now apply CE_same.
+  - unfold op_call_global_native.
+    destruct (p =? 0).
+    + destruct (resolve st (s_idx a)) as [q o| | |] eqn:R; try (now apply CE_same).
+      destruct (o_kind o) eqn:K; try (now apply CE_same). eapply CE_native; eauto.
+    + destruct (hget st p) as [o|]; [|now apply CE_same]. destruct (o_kind o); now apply CE_same.
+Qed.
+
+Lemma resolve_ok_inv st i q o : resolve st i = ROk q o -> gget st i = GPtr q /\ hget st q = Some o.
+Proof.
+  unfold resolve. destruct (gget st i) as [| |p]; try discriminate.
+  destruct (hget st p) as [o'|] eqn:H; [|discriminate]. intro E. inversion E; subst. auto.
+Qed.
+
+Lemma site_rel_set_form_native a b q : site_rel a b -> site_rel (set_form (Native q) a) b.
+Proof.
+  intros (H1 & H2 & H3 & _). repeat split; auto. intro U. exfalso. apply (U q). reflexivity.
+Qed.
+
+Lemma site_rel_set_form_mono a b q : site_rel a b -> uses_cache a -> site_rel (set_form (Mono q) a) b.
+Proof. intros (H1 & H2 & H3 & H4) U. repeat split; auto. Qed.
+
+(* sites of the specification never carry a patched form *)
+Definition spec_sites_ok (sp : state) : Prop :=
+  forall sid b, site_at sp sid = Some b -> s_slotted b = true -> uses_cache b.
+
+Lemma view_rel_upd st sp sid f st' :
+  view_rel st sp -> globals st' = globals st -> heap st' = heap st ->
+  sites st' = upd_nth (N.to_nat sid) f (sites st) ->
+  (forall a b, site_at st sid = Some a -> site_at sp sid = Some b -> site_rel a b -> site_rel (f a) b) ->
+  view_rel st' sp.
+Proof.
+  intros (Hg & Hh & Hs) Eg Eh Es Hf. repeat split.
+  - intro i. unfold gget. rewrite Eg. apply Hg.
+  - intro p. unfold hget. rewrite Eh. apply Hh.
+  - rewrite Es. apply forall2_of_nth. intro n.
+    pose proof (forall2_nth _ _ _ Hs n) as Hn.
+    destruct (Nat.eq_dec (N.to_nat sid) n) as [E|E].
+    + subst n. rewrite nth_error_upd_same.
+      unfold site_at in Hf.
+      destruct (nth_error (sites st) (N.to_nat sid)) as [a|]; destruct (nth_error (sites sp) (N.to_nat sid)) as [b|]; cbn; auto.
+    + rewrite nth_error_upd_other by exact E. exact Hn.
+Qed.
+
+Lemma step_call_preserves st sp sid :
+  cache_inv st -> view_rel st sp -> unique_slots sp = true ->
+  cache_inv (fst (call st sid)) /\ view_rel (fst (call st sid)) sp.
+Proof.
+  intros I R U.
+  destruct (call_effect_of st sid) as [E | a q o Ea La Res K E | a q o Ea La Ua Res K E]; rewrite E; clear E.
+  - auto.
+  - (* patched to 104 *)
+    destruct (resolve_ok_inv _ _ _ _ Res) as [Hg Hh].
+    split.
+    + assert (SA : forall j, site_at (with_site st sid (set_form (Native q))) j =
+                    if j =? sid then option_map (set_form (Native q)) (site_at st sid) else site_at st j).
+      { intro j. unfold site_at, with_site. cbn [sites]. apply upd_site_at. }
+      constructor.
+      * intros j s p Hj Lj Fj. rewrite SA in Hj. destruct (j =? sid) eqn:Ej.
+        -- rewrite Ea in Hj. cbn in Hj. inversion Hj; subst s. cbn in Fj. discriminate.
+        -- exact (inv_mono st I j s p Hj Lj Fj).
+      * intros j s p Hj Lj Fj. rewrite SA in Hj. destruct (j =? sid) eqn:Ej.
+        -- rewrite Ea in Hj. cbn in Hj. inversion Hj; subst s. cbn in Fj. inversion Fj; subst p.
+           intros _. cbn [s_idx set_form]. split; [exact Hg|]. exists o. split; [exact Hh|exact K].
+        -- exact (inv_native st I j s p Hj Lj Fj).
+      * intros j s Hj Fj. rewrite SA in Hj. destruct (j =? sid) eqn:Ej.
+        -- rewrite Ea in Hj. cbn in Hj. inversion Hj; subst s. exfalso. apply (Fj q). reflexivity.
+        -- exact (inv_slotted st I j s Hj Fj).
+    + eapply view_rel_upd; eauto; try reflexivity.
+      intros a' b _ _ Hab. now apply site_rel_set_form_native.
+  - (* cache filled, patched to 78 *)
+    destruct (resolve_ok_inv _ _ _ _ Res) as [Hg Hh].
+    assert (Sa : s_slotted a = true) by (eapply inv_slotted; eauto).
+    pose proof (view_rel_site st sp sid R) as Hsid. rewrite Ea in Hsid.
+    destruct (site_at sp sid) as [b|] eqn:Eb; [|contradiction].
+    split.
+    + assert (SA : forall j, site_at (fill st sid a q (is_clo o)) j =
+                    if j =? sid then option_map (set_form (Mono q)) (site_at st sid) else site_at st j).
+      { intro j. unfold site_at, fill. cbn [sites]. apply upd_site_at. }
+      constructor.
+      * intros j s p Hj Lj Fj. rewrite SA in Hj. destruct (j =? sid) eqn:Ej.
+        -- rewrite Ea in Hj. cbn in Hj. inversion Hj; subst s. cbn in Fj. inversion Fj; subst p.
+           intros e He. unfold fill in He. cbn [cache s_slot set_form] in He.
+           rewrite cache_entry_set_same in He. inversion He; subst e. cbn [e_code e_clo].
+           split; [reflexivity|]. split; [exact Hg|]. exists o. auto.
+        -- apply N.eqb_neq in Ej.
+           pose proof (inv_mono st I j s p Hj Lj Fj) as M.
+           assert (S : s_slotted s = true) by (eapply inv_slotted; eauto; intros x; congruence).
+           (* a different live slotted site has a different slot *)
+           pose proof (view_rel_site st sp j R) as Hjr. rewrite Hj in Hjr.
+           destruct (site_at sp j) as [bj|] eqn:Ebj; [|contradiction].
+           destruct Hjr as (L1 & S1 & _ & Sl1). destruct Hsid as (L2 & S2 & _ & Sl2).
+           assert (Ne : s_slot s <> s_slot a).
+           { rewrite Sl1 by (intros x; congruence). rewrite Sl2 by exact Ua.
+             eapply unique_slots_distinct; eauto; apply live_slot_user; congruence. }
+           intros e He. unfold fill in He. cbn [cache] in He.
+           rewrite cache_entry_set_other in He by congruence.
+           exact (M e He).
+      * intros j s p Hj Lj Fj. rewrite SA in Hj. destruct (j =? sid) eqn:Ej.
+        -- rewrite Ea in Hj. cbn in Hj. inversion Hj; subst s. cbn in Fj. discriminate.
+        -- exact (inv_native st I j s p Hj Lj Fj).
+      * intros j s Hj Fj. rewrite SA in Hj. destruct (j =? sid) eqn:Ej.
+        -- rewrite Ea in Hj. cbn in Hj. inversion Hj; subst s. exact Sa.
+        -- exact (inv_slotted st I j s Hj Fj).
+    + eapply view_rel_upd; eauto; try reflexivity.
+      intros a' b' Ha' _ Hab. rewrite Ea in Ha'. inversion Ha'; subst a'. now apply site_rel_set_form_mono.
+Qed.
+
+(* ------------------------------------------------------------------ the other events *)
+Lemma clears_cache : SET_GLOBAL_CLEARS_CACHE = true.
+Proof. reflexivity. Qed.
+
+Lemma lookup_freed (freed : list N) (h : list (N * option obj)) q :
+  lookup q (map (fun p => (p, None)) freed ++ h) = if memb q freed then Some None else lookup q h.
+Proof.
+  induction freed as [|p r IH]; cbn; [reflexivity|].
+  destruct (q =? p); cbn; [reflexivity|exact IH].
+Qed.
+
+Lemma site_at_map_sites st' st f j :
+  sites st' = map_sites f 0 (sites st) -> site_at st' j = option_map (f j) (site_at st j).
+Proof.
+  intro E. unfold site_at. rewrite E, nth_error_map_sites.
+  replace (0 + N.of_nat (N.to_nat j)) with j by lia. reflexivity.
+Qed.
+
+Lemma site_rel_refl s : site_rel s s.
+Proof. repeat split; auto. Qed.
+
+Lemma cache_inv_transport st st' :
+  cache_inv st ->
+  (forall j s', site_at st' j = Some s' -> uses_cache s' -> s_slotted s' = true) ->
+  (forall j s' p, site_at st' j = Some s' -> s_live s' = true -> s_form s' = Mono p ->
+     exists s, site_at st j = Some s /\ s_live s = true /\ s_form s = Mono p /\ s_slot s = s_slot s' /\ s_idx s = s_idx s') ->
+  (forall j s' p, site_at st' j = Some s' -> s_live s' = true -> s_form s' = Native p ->
+     (exists s, site_at st j = Some s /\ s_live s = true /\ s_form s = Native p /\ s_slotted s = s_slotted s' /\ s_idx s = s_idx s')
+     \/ (p = 0 /\ s_slotted s' = false)) ->
+  (forall s p, mono_ok st s p -> mono_ok st' s p) ->
+  (forall s p, native_ok st s p -> native_ok st' s p) ->
+  cache_inv st'.
+Proof.
+  intros I H1 H2 H3 HM HN. constructor.
+  - intros j s' p Hj Lj Fj. destruct (H2 j s' p Hj Lj Fj) as (s & Hs & Ls & Fs & Es & Ix).
+    pose proof (HM _ _ (inv_mono st I j s p Hs Ls Fs)) as M.
+    unfold mono_ok in *. rewrite <- Es, <- Ix. exact M.
+  - intros j s' p Hj Lj Fj. destruct (H3 j s' p Hj Lj Fj) as [(s & Hs & Ls & Fs & Sl & Ix)|[-> Sf]].
+    + pose proof (HN _ _ (inv_native st I j s p Hs Ls Fs)) as M.
+      unfold native_ok in *. rewrite <- Sl, <- Ix. exact M.
+    + intros [H|H]; congruence.
+  - exact H1.
+Qed.
+
+Lemma native_bound_rel st sp i : view_rel st sp -> native_bound st i = native_bound sp i.
+Proof. intro R. unfold native_bound. now rewrite (view_rel_resolve st sp i R). Qed.
+
+(* same sites: the three site obligations of the transport lemma *)
+Lemma transport_same_sites st st' :
+  cache_inv st -> sites st' = sites st ->
+  (forall j s', site_at st' j = Some s' -> uses_cache s' -> s_slotted s' = true) /\
+  (forall j s' p, site_at st' j = Some s' -> s_live s' = true -> s_form s' = Mono p ->
+     exists s, site_at st j = Some s /\ s_live s = true /\ s_form s = Mono p /\ s_slot s = s_slot s' /\ s_idx s = s_idx s') /\
+  (forall j s' p, site_at st' j = Some s' -> s_live s' = true -> s_form s' = Native p ->
+     (exists s, site_at st j = Some s /\ s_live s = true /\ s_form s = Native p /\ s_slotted s = s_slotted s' /\ s_idx s = s_idx s')
+     \/ (p = 0 /\ s_slotted s' = false)).
+Proof.
+  intros I E. unfold site_at. rewrite E. repeat split.
+  - intros j s' Hj U. eapply inv_slotted; eauto.
+  - intros j s' p Hj Lj Fj. exists s'. auto.
+  - intros j s' p Hj Lj Fj. left. exists s'. auto.
+Qed.
+
+Lemma step_other_preserves st sp ev :
+  (forall sid, ev <> Call sid) ->
+  cache_inv st -> view_rel st sp -> spec_sites_ok sp -> event_ok sp ev = true ->
+  cache_inv (fst (step st ev)) /\ view_rel (fst (step st ev)) (fst (step sp ev)) /\ spec_sites_ok (fst (step sp ev)).
+Proof.
+  intros NC I R SS G. pose proof R as (Rg & Rh & Rs).
+  destruct ev as [sid|idx v|p o|ds base|sids|sids|freed]; [exfalso; eapply NC; reflexivity| | | | | |]; cbn [step fst].
+  - (* SetGlobal *)
+    rewrite clears_cache. cbn [event_ok] in G. apply negb_true_iff in G.
+    rewrite <- (native_bound_rel st sp idx R) in G.
+    split; [|split].
+    + destruct (transport_same_sites st (mkState ((idx, v) :: globals st) (heap st) [] (sites st)) I eq_refl) as (T1 & T2 & T3).
+      eapply cache_inv_transport; eauto.
+      * intros s p _ e He. cbn [cache] in He. rewrite cache_entry_nil in He. discriminate.
+      * intros s p Hn Hp. destruct (Hn Hp) as (Hg & o & Ho & Hk).
+        assert (Ne : (s_idx s =? idx) = false).
+        { apply N.eqb_neq. intro E. subst idx. unfold native_bound, resolve in G. rewrite Hg, Ho, Hk in G. discriminate. }
+        split.
+        -- unfold gget in *. cbn [globals lookup]. rewrite Ne. exact Hg.
+        -- exists o. split; [exact Ho|exact Hk].
+    + repeat split.
+      * intro i. specialize (Rg i). unfold gget in *. cbn [globals lookup]. destruct (i =? idx); [reflexivity|exact Rg].
+      * exact Rh.
+      * exact Rs.
+    + exact SS.
+  - (* Alloc *)
+    cbn [event_ok] in G. destruct (hget sp p) eqn:Hp; [discriminate|]. rewrite <- Rh in Hp.
+    assert (HK : forall q o', hget st q = Some o' ->
+                 hget (mkState (globals st) ((p, Some o) :: heap st) (cache st) (sites st)) q = Some o').
+    { intros q o' Ho. unfold hget in *. cbn [heap lookup].
+      destruct (q =? p) eqn:E; [apply N.eqb_eq in E; subst q; congruence|exact Ho]. }
+    split; [|split].
+    + destruct (transport_same_sites st (mkState (globals st) ((p, Some o) :: heap st) (cache st) (sites st)) I eq_refl) as (T1 & T2 & T3).
+      eapply cache_inv_transport; eauto.
+      * intros s q Hm e He. cbn [cache] in He. destruct (Hm e He) as (Hc & Hg & o' & Ho & Hk & Hcl).
+        split; [exact Hc|]. split; [exact Hg|]. exists o'. split; [apply HK; exact Ho|auto].
+      * intros s q Hn Hq. destruct (Hn Hq) as (Hg & o' & Ho & Hk). split; [exact Hg|]. exists o'. split; [apply HK; exact Ho|exact Hk].
+    + repeat split.
+      * exact Rg.
+      * intro q. specialize (Rh q). unfold hget in *. cbn [heap lookup]. destruct (q =? p); [reflexivity|exact Rh].
+      * exact Rs.
+    + exact SS.
+  - (* NewUnit *)
+    assert (NEW : forall (sts : list site) j s', nth_error (sts ++ map (site_of_decl base) ds) (N.to_nat j) = Some s' ->
+              nth_error sts (N.to_nat j) = Some s' \/
+              (nth_error sts (N.to_nat j) = None /\ exists d, s' = site_of_decl base d)).
+    { intros sts j s' Hj. destruct (nth_error sts (N.to_nat j)) as [s|] eqn:Es.
+      - left. rewrite nth_error_app1 in Hj by (apply nth_error_Some; congruence). congruence.
+      - right. split; [reflexivity|]. apply nth_error_None in Es. rewrite nth_error_app2 in Hj by exact Es.
+        apply nth_error_In in Hj. apply in_map_iff in Hj as (d & Hd & _). eauto. }
+    split; [|split].
+    + eapply cache_inv_transport; eauto.
+      * intros j s' Hj Us. destruct (NEW _ _ _ Hj) as [H|(_ & d & ->)].
+        -- eapply inv_slotted; eauto.
+        -- unfold site_of_decl in *. cbn in *. destruct (d_native d); cbn in *; [exfalso; apply (Us 0); reflexivity|reflexivity].
+      * intros j s' p Hj Lj Fj. destruct (NEW _ _ _ Hj) as [H|(_ & d & ->)].
+        -- exists s'. auto.
+        -- unfold site_of_decl in Fj. cbn in Fj. destruct (d_native d); discriminate.
+      * intros j s' p Hj Lj Fj. destruct (NEW _ _ _ Hj) as [H|(_ & d & ->)].
+        -- left. exists s'. auto.
+        -- right. unfold site_of_decl in *. cbn in *. destruct (d_native d); cbn in *; [|discriminate].
+           inversion Fj. auto.
+    + repeat split; auto. cbn [sites]. apply Forall2_app; [exact Rs|].
+      clear. induction ds; cbn; constructor; auto. apply site_rel_refl.
+    + intros j b Hj Sb. destruct (NEW _ _ _ Hj) as [H|(_ & d & ->)].
+      * eapply SS; eauto.
+      * unfold site_of_decl in *. cbn in *. destruct (d_native d); cbn in *; [discriminate|]. intros x; discriminate.
+  - (* Retire *)
+    set (f := fun (i : N) (s : site) => if memb i sids then mkSite false (s_slotted s) (s_form s) (s_slot s) (s_idx s) else s).
+    assert (FS : forall (stt : state) j s', option_map (f j) (site_at stt j) = Some s' ->
+               exists s, site_at stt j = Some s /\ s_slotted s' = s_slotted s /\ s_form s' = s_form s /\ s_slot s' = s_slot s /\
+                         s_idx s' = s_idx s /\ (s_live s' = true -> s_live s = true)).
+    { intros stt j s' H. destruct (site_at stt j) as [s|]; [|discriminate]. cbn in H. inversion H as [E]. clear H.
+      exists s. unfold f. destruct (memb j sids); cbn; repeat split; auto. discriminate. }
+    split; [|split].
+    + eapply cache_inv_transport; eauto.
+      * intros j s' Hj Us. erewrite site_at_map_sites in Hj by reflexivity.
+        destruct (FS _ _ _ Hj) as (s & Hs & E1 & E2 & E3 & E4 & E5). rewrite E1.
+        eapply inv_slotted; eauto. intros x. rewrite <- E2. apply Us.
+      * intros j s' p Hj Lj Fj. erewrite site_at_map_sites in Hj by reflexivity.
+        destruct (FS _ _ _ Hj) as (s & Hs & E1 & E2 & E3 & E4 & E5). exists s. repeat split; auto; congruence.
+      * intros j s' p Hj Lj Fj. erewrite site_at_map_sites in Hj by reflexivity.
+        destruct (FS _ _ _ Hj) as (s & Hs & E1 & E2 & E3 & E4 & E5). left. exists s. repeat split; auto; congruence.
+    + repeat split; auto. cbn [sites]. apply forall2_of_nth. intro n.
+      rewrite !nth_error_map_sites. pose proof (forall2_nth _ _ _ Rs n) as Hn.
+      destruct (nth_error (sites st) n) as [a|]; destruct (nth_error (sites sp) n) as [b|]; cbn; auto.
+      unfold f. destruct (memb (0 + N.of_nat n) sids); [|exact Hn].
+      destruct Hn as (H1 & H2 & H3 & H4). repeat split; auto.
+    + intros j b Hj Sb. erewrite site_at_map_sites in Hj by reflexivity.
+      destruct (FS _ _ _ Hj) as (s & Hs & E1 & E2 & E3 & E4 & E5).
+      intros x. rewrite E2. eapply SS; eauto; congruence.
+  - (* SaveReload *)
+    set (f := fun (i : N) (s : site) => if memb i sids then reload_site s else s).
+    split; [|split].
+    + eapply cache_inv_transport; eauto.
+      * intros j s' Hj Us. erewrite site_at_map_sites in Hj by reflexivity.
+        destruct (site_at st j) as [s|] eqn:Es; [|discriminate]. cbn in Hj. inversion Hj as [E]. clear Hj.
+        unfold f, reload_site in *. destruct (memb j sids); [|subst s'; eapply inv_slotted; eauto].
+        destruct (s_form s) as [|p|p] eqn:Fs; subst s'; cbn in *.
+        -- eapply inv_slotted; eauto. intros x. congruence.
+        -- eapply inv_slotted; eauto. intros x. congruence.
+        -- eapply inv_slotted; eauto.
+      * intros j s' p Hj Lj Fj. erewrite site_at_map_sites in Hj by reflexivity.
+        destruct (site_at st j) as [s|] eqn:Es; [|discriminate]. cbn in Hj. inversion Hj as [E]. clear Hj.
+        unfold f, reload_site in *. destruct (memb j sids); [|subst s'; exists s; auto].
+        destruct (s_form s) as [|q|q] eqn:Fs; subst s'; cbn in *; try discriminate. congruence.
+      * intros j s' p Hj Lj Fj. erewrite site_at_map_sites in Hj by reflexivity.
+        destruct (site_at st j) as [s|] eqn:Es; [|discriminate]. cbn in Hj. inversion Hj as [E]. clear Hj.
+        unfold f, reload_site in *. destruct (memb j sids); [|subst s'; left; exists s; auto].
+        destruct (s_form s) as [|q|q] eqn:Fs; subst s'; cbn in *; try discriminate.
+        left. exists s. auto.
+    + repeat split; auto. cbn [sites]. apply forall2_of_nth. intro n.
+      rewrite !nth_error_map_sites. pose proof (forall2_nth _ _ _ Rs n) as Hn.
+      destruct (nth_error (sites st) n) as [a|] eqn:Ea; destruct (nth_error (sites sp) n) as [b|] eqn:Eb; cbn; auto.
+      unfold f. destruct (memb (0 + N.of_nat n) sids); [|exact Hn].
+      destruct Hn as (H1 & H2 & H3 & H4).
+      assert (Sa : uses_cache a -> s_slotted a = true).
+      { intro Ua. apply (inv_slotted st I (N.of_nat n) a); [unfold site_at; now rewrite Nat2N.id|exact Ua]. }
+      assert (Ub : s_slotted b = true -> uses_cache b).
+      { intro Sb. apply (SS (N.of_nat n) b); [unfold site_at; now rewrite Nat2N.id|exact Sb]. }
+      unfold reload_site.
+      destruct (s_form a) as [|q|q] eqn:Fa.
+      * assert (Sb : s_slotted b = true) by (rewrite <- H2; apply Sa; intros x; congruence).
+        destruct (s_form b) as [|q'|q'] eqn:Fb; cbn; repeat split; auto.
+        exfalso. apply (Ub Sb q'). exact Fb.
+      * assert (Sb : s_slotted b = true) by (rewrite <- H2; apply Sa; intros x; congruence).
+        destruct (s_form b) as [|q'|q'] eqn:Fb; cbn; repeat split; auto.
+        exfalso. apply (Ub Sb q'). exact Fb.
+      * destruct (s_form b) as [|q'|q'] eqn:Fb; cbn; repeat split; auto;
+          intros Ua; exfalso; apply (Ua q); exact Fa.
+    + intros j b Hj Sb. erewrite site_at_map_sites in Hj by reflexivity.
+      destruct (site_at sp j) as [s|] eqn:Es; [|discriminate]. cbn in Hj. inversion Hj as [E]. clear Hj.
+      unfold f, reload_site in *. destruct (memb j sids); [|subst b; eapply SS; eauto].
+      destruct (s_form s) as [|q|q] eqn:Fs; subst b; cbn in *; try (intros x; discriminate).
+      eapply SS; eauto.
+  - (* Collect *)
+    cbn [event_ok] in G. rewrite forallb_forall in G.
+    assert (NB : forall q i, gget st i = GPtr q -> memb q freed = false).
+    { intros q i Hg. destruct (memb q freed) eqn:M; [|reflexivity]. exfalso.
+      unfold memb in M. apply existsb_exists in M as (x & Hx & E). apply N.eqb_eq in E. subst x.
+      specialize (G q Hx). apply negb_true_iff in G.
+      apply (not_bound_somewhere sp q G i). rewrite <- Rg. exact Hg. }
+    assert (HK : forall (stt : state) q, hget (mkState (globals stt) (map (fun p => (p, None)) freed ++ heap stt) (cache stt) (sites stt)) q
+                          = if memb q freed then None else hget stt q).
+    { intros stt q. unfold hget. cbn [heap]. rewrite lookup_freed. destruct (memb q freed); reflexivity. }
+    split; [|split].
+    + destruct (transport_same_sites st (mkState (globals st) (map (fun p => (p, None)) freed ++ heap st) (cache st) (sites st)) I eq_refl) as (T1 & T2 & T3).
+      eapply cache_inv_transport; eauto.
+      * intros s q Hm e He. cbn [cache] in He. destruct (Hm e He) as (Hc & Hg & o' & Ho & Hk & Hcl).
+        split; [exact Hc|]. split; [exact Hg|]. exists o'. split; [|auto].
+        rewrite HK. rewrite (NB q _ Hg). exact Ho.
+      * intros s q Hn Hq. destruct (Hn Hq) as (Hg & o' & Ho & Hk). split; [exact Hg|]. exists o'. split; [|exact Hk].
+        rewrite HK. rewrite (NB q _ Hg). exact Ho.
+    + repeat split.
+      * exact Rg.
+      * intro q. rewrite !HK. rewrite Rh. reflexivity.
+      * exact Rs.
+    + exact SS.
+Qed.
+
+(* ------------------------------------------------------------------ histories *)
+Definition agree (a b : outcome) : Prop := same_callee a b = true.
+
+Lemma run_cons stp st e r : run stp st (e :: r) = snd (stp st e) :: run stp (fst (stp st e)) r.
+Proof. cbn [run]. destruct (stp st e); reflexivity. Qed.
+
+Lemma step_noncall_outcome st ev : (forall sid, ev <> Call sid) -> snd (step st ev) = ONone.
+Proof. intro NC. destruct ev; try reflexivity. exfalso. eapply NC. reflexivity. Qed.
+
+Theorem run_agrees : forall h st sp,
+  cache_inv st -> view_rel st sp -> spec_sites_ok sp -> hist_ok sp h = true ->
+  Forall2 agree (run step st h) (run spec_step sp h).
+Proof.
+  induction h as [|e r IH]; intros st sp I R SS H; [constructor|].
+  cbn [hist_ok] in H. apply andb_true_iff in H as [H Hr]. apply andb_true_iff in H as [U G].
+  rewrite !run_cons.
+  destruct e as [sid|idx v|p o|ds base|sids|sids|freed].
+  1: { cbn [step spec_step fst snd] in *. constructor.
+       - apply call_correct; auto.
+       - destruct (step_call_preserves st sp sid I R U) as [I' R']. apply IH; auto. }
+  all: match goal with |- Forall2 _ (snd (step ?s ?ev) :: _) _ =>
+         assert (NC : forall sid, ev <> Call sid) by (intros sid; discriminate);
+         destruct (step_other_preserves st sp ev NC I R SS G) as (I' & R' & SS');
+         constructor; [ rewrite step_noncall_outcome by exact NC; reflexivity
+                      | apply IH; auto ]
+       end.
+Qed.
+
+Lemma init_inv : cache_inv init.
+Proof.
+  constructor; intros sid s; unfold site_at, init; cbn; destruct (N.to_nat sid); discriminate.
+Qed.
+
+Lemma init_rel : view_rel init init.
+Proof. repeat split; constructor. Qed.
+
+Lemma init_spec_ok : spec_sites_ok init.
+Proof. intros sid b; unfold site_at, init; cbn; destruct (N.to_nat sid); discriminate. Qed.
+
+Theorem run_agrees_from_init : forall h, hist_ok init h = true ->
+  Forall2 agree (run step init h) (run spec_step init h).
+Proof. intros h H. apply run_agrees; auto using init_inv, init_rel, init_spec_ok. Qed.
+
+(* per call: the k-th event of the history, when it is a call, enters the specified callee *)
+Lemma forall2_nth_agree : forall l l', Forall2 agree l l' ->
+  forall k a b, nth_error l k = Some a -> nth_error l' k = Some b -> agree a b.
+Proof.
+  intros l l' H k a b Ha Hb. pose proof (forall2_nth _ _ _ H k) as Hk. rewrite Ha, Hb in Hk. exact Hk.
+Qed.
+
+(* ------------------------------------------------------------------ invalidation *)
+Lemma invalidate_on_set : forall st idx v sid s,
+  let st' := fst (step st (SetGlobal idx v)) in
+  site_at st' sid = Some s -> uses_cache s -> s_slot s < MAX_CALL_SITE_SLOTS ->
+  agree (snd (call st' sid)) (spec_call st' sid).
+Proof.
+  intros st idx v sid s st' Hs Us Hb. unfold agree, call, spec_call. fold (site_at st' sid). rewrite Hs.
+  destruct (s_live s); cbn [negb]; [|reflexivity].
+  assert (Hb' : (MAX_CALL_SITE_SLOTS <=? s_slot s) = false) by (apply N.leb_gt; exact Hb).
+  destruct (s_form s) as [|p|p] eqn:Fs.
+  - unfold op_call_global. destruct (resolve st' (s_idx s)) as [q o| | |]; cbn; auto.
+    destruct (o_kind o); rewrite ?Hb'; cbn; rewrite ?N.eqb_refl; reflexivity.
+  - unfold op_call_global_mono.
+    assert (C : cache_entry (cache st') (s_slot s) = None).
+    { unfold st'. cbn [step fst cache]. rewrite clears_cache. apply cache_entry_nil. }
+    rewrite C.
+    assert (M : same_callee (snd (mono_miss st' sid s))
+                  match resolve st' (s_idx s) with
+                  | ROk q o => match o_kind o with KNat => ONative q | _ => ORan q q end
+                  | _ => OErr ENotCallable end = true).
+    { unfold mono_miss. destruct (resolve st' (s_idx s)) as [q o| | |]; cbn; auto.
+      destruct (o_kind o); rewrite ?Hb'; cbn; rewrite ?N.eqb_refl; reflexivity. }
+    destruct (negb (p =? 0) && (negb MONO_FAST_PATH_VALIDATES || gval_is (gget st' (s_idx s)) p)); exact M.
+  - exfalso. apply (Us p). exact Fs.
+Qed.
+
+(* ------------------------------------------------------------------ refutation plumbing *)
+Fixpoint all_agree (a b : list outcome) : bool :=
+  match a, b with
+  | [], [] => true
+  | x :: a', y :: b' => same_callee x y && all_agree a' b'
+  | _, _ => false
+  end.
+
+Lemma forall2_all_agree a b : Forall2 agree a b -> all_agree a b = true.
+Proof. induction 1 as [|x y a b Hxy _ IH]; cbn; [reflexivity|]. unfold agree in Hxy. now rewrite Hxy, IH. Qed.
+
+Lemma not_agree a b : all_agree a b = false -> ~ Forall2 agree a b.
+Proof. intros H F. apply forall2_all_agree in F. congruence. Qed.
+
+Lemma repl_base_zero : forall st, repl_slot_base st = 0.
+Proof. intro st. reflexivity. Qed.
+
+(* ---- witnesses (names: ha=0 hb=1 a=2 b=3; heap indices 10..13; tags 20..23) ---- *)
+Definition defs_ha_hb : list event :=
+  [Alloc 10 (mkObj KFn 20 []); SetGlobal 0 (GPtr 10); Alloc 11 (mkObj KFn 21 []); SetGlobal 1 (GPtr 11)].
+
+(* REPL session: `fn ha.. fn hb..` | `fn a(){ha()}` | `fn b(){hb()}` | `a()` | `b()` | `a()`;
+   every input is a unit whose slot ids start at repl_slot_base = 0 *)
+Definition repl_session : list (list event) :=
+  [ NewUnit [] 0 :: defs_ha_hb;
+    [NewUnit [mkDecl false 0 0] 0; Alloc 12 (mkObj KFn 22 [0]); SetGlobal 2 (GPtr 12)];
+    [NewUnit [mkDecl false 0 1] 0; Alloc 13 (mkObj KFn 23 [1]); SetGlobal 3 (GPtr 13)];
+    [NewUnit [mkDecl false 0 2] 0; Call 2; Retire [2]];
+    [NewUnit [mkDecl false 0 3] 0; Call 3; Retire [3]];
+    [NewUnit [mkDecl false 0 2] 0; Call 4; Retire [4]] ].
+
+(* the same session as a flat history, with the calls made by the bodies written out *)
+Definition repl_history : list event :=
+  (NewUnit [] 0 :: defs_ha_hb) ++
+  [NewUnit [mkDecl false 0 0] 0; Alloc 12 (mkObj KFn 22 [0]); SetGlobal 2 (GPtr 12);
+   NewUnit [mkDecl false 0 1] 0; Alloc 13 (mkObj KFn 23 [1]); SetGlobal 3 (GPtr 13);
+   NewUnit [mkDecl false 0 2] 0; Call 2; Call 0; Retire [2];
+   NewUnit [mkDecl false 0 3] 0; Call 3; Call 1; Retire [3];
+   NewUnit [mkDecl false 0 2] 0; Call 4; Call 0].
+
+(* one program: fn ha, hb, a(){ha()}, b(){hb()}; a(); b(); a()  -- sites: 0 = a's body (slot 0),
+   1 = b's body (slot 1), 2,3,4 = top level (slots 2,3,4) *)
+Definition program_unit : list event :=
+  defs_ha_hb ++
+  [NewUnit [mkDecl false 0 0; mkDecl false 1 1; mkDecl false 2 2; mkDecl false 3 3; mkDecl false 4 2] 0;
+   Alloc 12 (mkObj KFn 22 [0]); SetGlobal 2 (GPtr 12); Alloc 13 (mkObj KFn 23 [1]); SetGlobal 3 (GPtr 13)].
+Definition program_calls : list event := [Call 2; Call 0; Call 3; Call 1; Call 4; Call 0].
+Definition program_session (reload : bool) : list (list event) :=
+  [program_unit ++ (if reload then [SaveReload [0; 1; 2; 3; 4]] else []) ++ [Call 2; Call 3; Call 4]].
+
+(* `let mut t = abs; fn go(){ t() }; go(); t = floor; go()` -- names: abs=0 floor=1 t=2 go=3;
+   natives at heap 58, 75; go at 12; sites: 0 = go's body (t, emitted 77, slot 0), 1,2 = top level *)
+Definition native_history : list event :=
+  [Alloc 58 (mkObj KNat 1 []); SetGlobal 0 (GPtr 58); Alloc 75 (mkObj KNat 2 []); SetGlobal 1 (GPtr 75);
+   NewUnit [mkDecl false 0 2; mkDecl false 1 3; mkDecl false 2 3] 0;
+   SetGlobal 2 (GPtr 58); Alloc 12 (mkObj KFn 22 [0]); SetGlobal 3 (GPtr 12);
+   Call 1; Call 0; SetGlobal 2 (GPtr 75); Call 2; Call 0].
+
+Lemma repl_refuted : ~ Forall2 agree (run step init repl_history) (run spec_step init repl_history).
+Proof. apply not_agree. vm_compute. reflexivity. Qed.
+
+Lemma repl_last_call : nth_error (run step init repl_history) 21 = Some (ORan 12 10)
+  /\ nth_error (run spec_step init repl_history) 21 = Some (ORan 10 10).
+Proof. vm_compute. split; reflexivity. Qed.
+
+Lemma reload_refuted :
+  hist_ok init (program_unit ++ program_calls) = true /\
+  ~ Forall2 agree (run step init (program_unit ++ SaveReload [0; 1; 2; 3; 4] :: program_calls))
+                  (run spec_step init (program_unit ++ SaveReload [0; 1; 2; 3; 4] :: program_calls)).
+Proof. split; [vm_compute; reflexivity|]. apply not_agree. vm_compute. reflexivity. Qed.
+
+Lemma native_refuted :
+  unique_slots (final spec_step init native_history) = true /\
+  ~ Forall2 agree (run step init native_history) (run spec_step init native_history).
+Proof. split; [vm_compute; reflexivity|]. apply not_agree. vm_compute. reflexivity. Qed.
